@@ -244,6 +244,11 @@ def main():
     run.notes["compacted_objects_with_unequal_counts"] = getattr(hook, "compacted_unequal", 0)
     if getattr(hook, "compacted_unequal", 0) == 0:
         raise Exception("non-vacuity failed: no state with unequal accepted counts was rebuilt without its rejected windows")
+    # ---- per-azimuth accept / reject states are per azimuth and per object (spec/TraceResultHeap.tla): a rejection on one object or
+    #      azimuth leaves every other object and azimuth alone, and no two masks share storage
+    import resultheap
+    resultheap.run_sessions(run, hvsrpy, "C11-result-heap", dict(new_trad=1, assemble=4, update_range=2, reject=8, read_only=3),
+                            dict(statistics=4, summary=1, azimuthal_figures=1), 12 if run.quick else 120, 16, "result-heap")
     return run.finish(
         rule="every transition of the exported HvsrObject graph with 2 azimuths x 3 windows replayed on real "
              "HvsrAzimuthal objects; in every state all weighted accessors compared with the exact Cheng-weighted "
